@@ -1005,6 +1005,28 @@ func CopyDir(src, dst string) error {
 	})
 }
 
+// DropAlways removes always=True from every target declaration (not part of any function environment, so no target
+// becomes stale or current because of it). It returns the number of declarations changed.
+func (e *Engine) DropAlways() int {
+	n := 0
+	touched := map[string]bool{}
+	for _, t := range e.P.AllTargets() {
+		if t.Always {
+			t.Always = false
+			touched["pkg:"+t.Pkg] = true
+			n++
+		}
+	}
+	for id := range touched {
+		e.P.WriteFile(e.S.Root, id)
+	}
+	if n > 0 {
+		e.M.tick()
+		e.step("edit", fmt.Sprintf("always=True removed from %d declarations", n))
+	}
+	return n
+}
+
 // EditDoc changes only the docstring of one target (a docstring is not part of the function
 // environment: no target may re-execute because of it, and no record may lose what it says).
 func (e *Engine) EditDoc(label string) bool {
